@@ -26,3 +26,19 @@ PROPS = {
     'C18': dict(families=[], bounded='pvf.bounded.c18', level='other'),
     'C19': dict(families=[], bounded='pvf.bounded.c19', level='other'),
 }
+
+# frame obligations by effect analysis (pvf/effects.py): which of them serve which property
+def _all(o):
+    return True
+
+
+EFFECTS = {
+    'C19': _all,
+    'C03': lambda o: '/settings-flow@' in o['name'],
+    'C18': lambda o: '/settings-flow@one-pipeline' in o['name'] or o['name'].startswith('effects:__init__:'),
+    'C13': lambda o: o['name'].startswith('effects:prettyprinter:') and any(k in o['name'] for k in ('/module-state@', '/hidden-state@', '/global-rebind@', '/id-flow@')),
+    'C14': lambda o: o['name'].startswith('effects:prettyprinter:') and any(k in o['name'] for k in ('/module-state@', '/hidden-state@', '/global-rebind@')),
+    'C15': lambda o: o['name'].startswith('effects:prettyprinter:') and any(k in o['name'] for k in ('/module-state@', '/hidden-state@', '/global-rebind@')),
+    'C16': lambda o: o['name'].startswith('effects:color:'),
+}
+
